@@ -13,7 +13,7 @@ REQUIRED = [P + n for n in [
     "Pixman.Props.C09Flags." + n for n in [
         "is_opaque_flag", "samples_opaque_flag", "cover_bits_clear", "affine_flag", "solid_flag_sound", "bits_flag_sound",
         "gradient_flag_sound_partial", "promotion_sound", "source_opaque_witness", "mask_opaque_witness",
-        "dest_opaque_sound", "id_transform_flag", "id_flag_no_transform"]] + [
+        "dest_opaque_sound", "id_transform_flag", "id_flag_no_transform", "radial_never_flagged"]] + [
     "Pixman.Props.C09Sound." + n for n in [
         "tap_opaque", "nearest_value_opaque", "bilinear_alpha_opaque", "bilinear_value_opaque", "float_lerp_equal_taps_exact",
         "float_bilinear_alpha_opaque", "promotion_other_bits", "opaque_values", "source_opaque_sound_partial",
@@ -21,7 +21,7 @@ REQUIRED = [P + n for n in [
     "Pixman.Props.C09Gradient." + n for n in [
         "colourAt_opaque", "gradient_opaque_sound_partial", "alpha_one_packs_255", "linear_paints_every_pixel",
         "conical_paints_every_pixel", "flagged_stops", "linear_gradient_opaque_sound", "conical_gradient_opaque_sound",
-        "radial_gradient_opaque_sound", "affine_setup", "projective_radial_never_flagged"]] + [
+        "radial_never_flagged"]] + [
     "Pixman.Props.C09Reduction." + n for n in [
         "reducible_matrix", "half_position", "bilinear_zero_weights_alpha", "bilinear_half_value_opaque", "reduced_positions",
         "opaque_values_full", "source_opaque_sound", "mask_opaque_sound"]] + [
@@ -77,9 +77,8 @@ def run(ctx):
         "returns for every pixel of the request has alpha 255, and the looked-up operator computes the requested operator's pixel. Hypotheses left: "
         "int32 matrix entries (C type), a non-empty image below analyze_extent's size limit, and that an alpha-less format fetches alpha 255 "
         "(Presents.pixels; discharged for every packed format of the regenerated list by C09Formats.c10_opaque_pixels from C10). The BILINEAR->NEAREST reduction is covered (C09Reduction: half-integer "
-        "positions, both weights 0, the value is the nearest sample). Gradients: linear / conical / radial-on-affine-rows write every pixel with "
-        "alpha 1 / 0xff (C13 coverage theorems). A radial gradient is flagged only under an affine transform (a7be4c7; projective_radial_never_flagged), so its rows are the "
-        "affine ones and need no extra hypothesis (affine_setup). The float "
+        "positions, both weights 0, the value is the nearest sample). Gradients: linear / conical write every pixel with "
+        "alpha 1 / 0xff (C13 coverage theorems). A radial gradient is never flagged opaque (6d3452b; radial_never_flagged): nothing is claimed about what it paints. The float "
         "pipeline is covered by the lerp theorem over Rat only",
         "opacity stream: no alpha maps, clip regions, accessors, indexed/gray/YUV formats, separable-convolution filter, dithering, pixbuf special case; "
         "gradient sources get the decision check and a render-alone oracle only; SATURATE pairs whose replacement leaves the float pipeline are not compared",
